@@ -45,7 +45,7 @@ import (
 %type<list>  word_list pattern_list
 %type<list>  case_list case_list_ns
 %type<node>  case_item case_item_ns
-%type<list>  else_part
+%type<list>  else_part elif_list
 %type<list>  compound_list term
 %type<list>  redir_list
 %type<node>  io_redir io_file io_here
@@ -491,6 +491,23 @@ if_clause:
 		}
 
 else_part:
+		elif_list
+	|	elif_list Else compound_list
+		{
+			$$ = append($1.([]ast.ElsePart), &ast.ElseClause{
+				Else: $2.pos,
+				List: $3.([]ast.Command),
+			})
+		}
+	|	Else compound_list
+		{
+			$$ = []ast.ElsePart{&ast.ElseClause{
+				Else: $1.pos,
+				List: $2.([]ast.Command),
+			}}
+		}
+
+elif_list:
 		Elif compound_list Then compound_list
 		{
 			$$ = []ast.ElsePart{&ast.ElifClause{
@@ -500,21 +517,14 @@ else_part:
 				List: $4.([]ast.Command),
 			}}
 		}
-	|	Elif compound_list Then compound_list else_part
+	|	elif_list Elif compound_list Then compound_list
 		{
-			$$ = append([]ast.ElsePart{&ast.ElifClause{
-				Elif: $1.pos,
-				Cond: $2.([]ast.Command),
-				Then: $3.pos,
-				List: $4.([]ast.Command),
-			}}, $5.([]ast.ElsePart)...)
-		}
-	|	Else compound_list
-		{
-			$$ = []ast.ElsePart{&ast.ElseClause{
-				Else: $1.pos,
-				List: $2.([]ast.Command),
-			}}
+			$$ = append($1.([]ast.ElsePart), &ast.ElifClause{
+				Elif: $2.pos,
+				Cond: $3.([]ast.Command),
+				Then: $4.pos,
+				List: $5.([]ast.Command),
+			})
 		}
 
 while_clause:
